@@ -177,6 +177,11 @@ def build_unit(contract, case, contracts, world):
                     st.assume(eval_spec(ip, st, {"self": selfv}, inv))
         for r in case.requires:
             st.assume(eval_spec(ip, st, st.env, r))
+        if case.ghost.get("elstate"):
+            from .calls import elem_state
+            reg.need("Obj")
+            reg.need("St")
+            st.env["$elst"] = Opaque(reg.new("elst", "(Array Obj St)"))
         entry = st.copy()
         ip.entry = entry
         ip.oldst = entry
@@ -200,9 +205,9 @@ def build_unit(contract, case, contracts, world):
                 raise Unsupported("break/continue outside loop")
         # canary: `ensures False` on the normal exits must be refuted (contradictory hypotheses otherwise)
         normal = [(k, s2) for k, s2, _ in outcomes if k in ("next", "return")]
-        if normal:
-            hy = normal[0][1].pc
-            ip.vcs.append(VC("canary ensures False", "canary", list(hy), FALSE, normal[0][1].trace))
+        # (some symbolic paths are infeasible by themselves; at least one normal exit must be feasible)
+        for kx, (_, sx) in enumerate(normal[:8]):
+            ip.vcs.append(VC("canary ensures False#%d" % kx, "canary", list(sx.pc), FALSE, sx.trace))
     except Unsupported as e:
         u.error, u.error_kind = str(e), "out-of-subset"
     except RecursionError as e:
@@ -232,6 +237,9 @@ def check_normal_exit(ip, case, entry, st, res, selfv, cls_inv, contracts):
         env["result"] = NONE
     if "$elst" in st.env:
         env["$elst"] = st.env["$elst"]
+    if case.result_alias is not None:
+        ip.emit("post", "result is the parameter %s itself" % case.result_alias, st,
+                ip.py_is(st, res, entry.env[case.result_alias]) if isinstance(res, Ref) else FALSE)
     for k, cl in enumerate(case.ensures):
         ip.emit("post", "ensures#%d" % k, st, eval_spec(ip, st, env, cl, old=entry), {"clause": cl})
     for exc, cond in case.raises.items():
